@@ -250,6 +250,9 @@ def make_world():
     return World()
 
 def replay(case):
+    if "flag_case" in case:
+        with harness.quiet():
+            return [v for v in flag_lattice()[0] if v["case"] == case]
     if "ctor" in case:
         with harness.quiet():
             return [v for v in leaf_lattice()[0] if v["case"] == case]
@@ -313,6 +316,69 @@ def leaf_lattice():
     harness.reset_modes(verify=False)
     return viols, n
 
+def flag_lattice():
+    """first sentence of the property for EVERY op of both catalogues: result requires grad  <=>  (mode enabled and some operand
+    requires grad), for every subset of operand flags and both modes; results that do not require grad carry no grad_fn"""
+    from mc import catalog_tensor as ct, catalog_nn as cn
+    sg = harness.load()
+    reps = {}
+    for fam, cases in ((ct, ct.cases("quick", "grad")), (cn, cn.cases("quick", "grad"))):
+        for c in cases:
+            key = (c["op"], c.get("form", "fn"), len(c["shapes"]))
+            reps.setdefault(key, (fam, c))
+    viols = []; n = 0
+    for key, (fam, c) in sorted(reps.items(), key=lambda kv: repr(kv[0])):
+        arrays = fam.arrays_for(c)
+        fl = [i for i, a in enumerate(arrays) if a.dtype.kind == "f"]
+        if c["op"] == "batch_norm" and c["args"].get("stats"): fl = fl[:-2]     # running statistics are buffers, not operands
+        for mask in range(1 << len(fl)):
+            rg = [False] * len(arrays)
+            for b, i in enumerate(fl): rg[i] = bool((mask >> b) & 1)
+            for mode in ("grad", "no_grad"):
+                harness.reset_modes(verify=False)
+                try:
+                    if mode == "no_grad":
+                        # operands are created with their flags while the mode is enabled, the op runs inside no_grad
+                        ts_in = None
+                        with sg.no_grad(): out, ts = _run_with_flags(fam, c, arrays, rg, sg, inside_no_grad=True)
+                    else:
+                        out, ts = _run_with_flags(fam, c, arrays, rg, sg, inside_no_grad=False)
+                except harness.HarnessError:
+                    raise
+                except Exception:
+                    continue
+                n += 1
+                want = (mode == "grad") and any(bool(t.requires_grad) for i, t in enumerate(ts) if i in fl)
+                name = c["op"] + ("" if c.get("form", "fn") == "fn" else ":" + c["form"])
+                case = {"history": [], "flag_case": {"op": c["op"], "form": c.get("form", "fn"), "noperands": len(arrays)}, "requires_grad": rg, "mode": mode}
+                if bool(out.requires_grad) != want:
+                    viols.append({"kind": f"{name}:result-requires_grad", "detail": f"operand flags {rg}, mode {mode}: result.requires_grad={out.requires_grad}, expected {want}", "case": case})
+                elif (out.grad_fn is not None) != want:
+                    viols.append({"kind": f"{name}:result-grad_fn", "detail": f"operand flags {rg}, mode {mode}: grad_fn present={out.grad_fn is not None}, expected {want}", "case": case})
+    harness.reset_modes(verify=False)
+    return viols, n
+
+def _run_with_flags(fam, c, arrays, rg, sg, inside_no_grad):
+    """operands must get their flags while grad mode is enabled even when the op itself runs under no_grad"""
+    if not inside_no_grad:
+        return fam.run_lib(c, arrays, rg)
+    Tn = sg.Tensor
+    st = harness.tensor_module()
+    made = []
+    orig_init = Tn.__init__
+    # create operand tensors with the mode temporarily enabled: wrap the constructor used by the catalogue helpers
+    def init(self, data, *a, **k):
+        if k.get("requires_grad") and not k.get("children") and not (a and a[0]):
+            prev = st.gradient__; st.gradient__ = True
+            try: return orig_init(self, data, *a, **k)
+            finally: st.gradient__ = prev
+        return orig_init(self, data, *a, **k)
+    Tn.__init__ = init
+    try:
+        return fam.run_lib(c, arrays, rg)
+    finally:
+        Tn.__init__ = orig_init
+
 def run(tier, seed):
     global THOROUGH
     THOROUGH = tier == "thorough"
@@ -329,9 +395,12 @@ def run(tier, seed):
                    "compared with the stack-machine model after the last event"}
     with harness.quiet():
         lv, ln = leaf_lattice()
-    res.violations.extend(lv)
+        fv, fn_ = flag_lattice()
+    res.violations.extend(lv); res.violations.extend(fv)
+    cov["flag_propagation_cases"] = fn_
     cov["leaf_constructor_cases"] = ln
-    cov["rule"] += f"; plus {ln} leaf-construction cases (every constructor x data kind x dtype argument x grad mode with requires_grad=True)"
+    cov["rule"] += (f"; plus {ln} leaf-construction cases (every constructor x data kind x dtype argument x grad mode with requires_grad=True) "
+                    f"and {fn_} flag-propagation cases (every op / layer / loss of both catalogues x every subset of operand flags x grad mode)")
     if tier == "thorough":
         audit = explorer.explore(make_world, 5, merge=False)
         merged5 = explorer.explore(make_world, 5)
